@@ -11,7 +11,7 @@ for id in $ids; do
   k=${id%%-*}
   wt=$(mktemp -d -u "$T/neut-XXXXXX")
   git -C /repo worktree add -q --detach "$wt" HEAD || continue
-  if git -C "$wt" apply "neutral/$id/patch.diff" 2>/dev/null; then
+  if git -C "$wt" apply "$PWD/neutral/$id/patch.diff" 2>/dev/null; then
     for p in ${CH[$k]}; do
       log=$(VERIF_OUT="$wt.out" VERIF_REPO="$wt" timeout 1500 ./vcheck $p quick 2>&1); rc=$?
       echo "$id $p rc=$rc violations=$(echo "$log" | grep -c '^VIOLATION') $(echo "$log" | tail -1 | sed 's/, wall.*//' | cut -c1-160)" | tee -a $out
